@@ -31,8 +31,9 @@ BASE = dict(
     p_wrap=0.6,
     kind_skew=True,
     max_nodes=14,
-    w_leaf=dict(call=5, item=7, err=0.1, junk=0.03, lazy=0.2, again=0.4, dbg=0.5, const=0.6),
-    lazy_modes=["ok", "ok", "raise"],
+    w_leaf=dict(call=5, item=7, err=0.1, junk=0.03, lazy=0.6, again=0.4, dbg=0.5, const=0.6),
+    lazy_modes=["ok", "sync", "sync", "raise"],
+    p_ctx_sync=0.15,
     p_try_raise=0.2,
 )
 Y = [gen.profile(kinds=k, **dict(BASE, w_stmt=dict(sync=0, orphan=0.0, raise_=0.1, try_=1.4))) for k in (2, 3, 4)]
